@@ -34,9 +34,10 @@
 #include "exec_ext.h"
 
 #define PAGE 4096
-#define DATA_PAGES 4
+#define DATA_PAGES 18
 #define MAXARENA (DATA_PAGES * PAGE - 64)
 #define NSLOT 8
+#define NDEST 9
 
 static sigjmp_buf jb;
 static volatile sig_atomic_t in_call = 0;
@@ -65,20 +66,22 @@ static Region mkregion(void)
     return r;
 }
 
-static Region regE, regS, regP, slotreg[NSLOT];
+static Region regE, regS, regP, regD[NDEST], slotreg[NSLOT];
 static uint8_t* slotptr[NSLOT];
 static size_t slotlen[NSLOT];
 
+static uint8_t canary_img[DATA_PAGES * PAGE];
 static uint8_t canary_byte(size_t i) { return (uint8_t)(0xC3 ^ (i * 7)); }
-static void fill_canary(Region* r) { for (size_t i = 0; i < DATA_PAGES * PAGE; i++) r->data[i] = canary_byte(i); }
+static void fill_canary(Region* r)
+{
+    if (!canary_img[1]) for (size_t i = 0; i < DATA_PAGES * PAGE; i++) canary_img[i] = canary_byte(i);
+    memcpy(r->data, canary_img, DATA_PAGES * PAGE);
+}
 static int check_canary(Region* r, uint8_t* a, size_t n)
 {
-    for (size_t i = 0; i < DATA_PAGES * PAGE; i++) {
-        uint8_t* p = r->data + i;
-        if (p >= a && p < a + n) continue;
-        if (*p != canary_byte(i)) return 1;
-    }
-    return 0;
+    size_t lo = (size_t)(a - r->data), hi = lo + n;
+    if (a < r->data || hi > DATA_PAGES * PAGE) return memcmp(r->data, canary_img, DATA_PAGES * PAGE) != 0;
+    return memcmp(r->data, canary_img, lo) != 0 || memcmp(r->data + hi, canary_img + hi, DATA_PAGES * PAGE - hi) != 0;
 }
 
 int hexval(int c) { return c <= '9' ? c - '0' : (c | 32) - 'a' + 10; }
@@ -212,6 +215,19 @@ uint8_t* ext_source(const uint8_t* bytes, size_t n)   /* read-only source object
     mprotect(regP.data, DATA_PAGES * PAGE, PROT_READ);
     return a;
 }
+uint8_t* ext_dest(int k, size_t cap, uint8_t fill)   /* writable destination object k of exactly cap bytes, end flush */
+{
+    if (k < 0 || k >= NDEST) return NULL;
+    if (!regD[k].map) regD[k] = mkregion();
+    memset(regD[k].data, fill, DATA_PAGES * PAGE);
+    return regD[k].data + DATA_PAGES * PAGE - cap;
+}
+int ext_dest_dirty(int k, size_t cap, uint8_t fill)   /* was anything before the destination object modified? */
+{
+    size_t lo = DATA_PAGES * PAGE - cap;
+    for (size_t i = 0; i < lo; i++) if (regD[k].data[i] != fill) return 1;
+    return 0;
+}
 int ext_call(void (*fn)(void*), void* ctx, char* status, size_t slen, uint8_t* arena)
 {
     strcpy(status, "ok");
@@ -227,14 +243,14 @@ void ext_result(const char* status, uint64_t ret, long rc, uint64_t out, uint8_t
     printf("R %s ", status); put64(ret); printf(" %ld ", rc); put64(out); putchar(' ');
     puthex(arena, alen);
     int bad = check_canary(cur_reg, arena, alen);
-    printf(" %d\n", bad);
+    printf(" %d", bad);
     if (bad) fill_canary(cur_reg);
     uncanary(cur_reg, arena, alen);
 }
 
 int main(void)
 {
-    static char line[1 << 17];
+    static char line[1 << 20];
     static uint8_t buf[MAXARENA];
     struct sigaction sa; memset(&sa, 0, sizeof sa);
     sa.sa_sigaction = on_fault; sa.sa_flags = SA_SIGINFO | SA_NODEFER;
